@@ -66,6 +66,8 @@ type env struct {
 	rec     *sim.RPCRecorder
 	proxy   *ipfsproxy.Server
 	base    string
+	proxies []*ipfsproxy.Server // plain, traced
+	bases   []string
 	hc      *http.Client
 	failRPC string
 }
@@ -117,36 +119,43 @@ func setup(c *fw.Ctx) {
 		}
 		return nil
 	})
-	cfg := &ipfsproxy.Config{}
-	cfg.Default()
-	// the proxy does not expose its listener: reserve a free port for it
-	tmp, err := net.Listen("tcp", "127.0.0.1:0")
-	if err != nil {
-		fmt.Println("C12 setup:", err)
-		return
-	}
-	port := tmp.Addr().(*net.TCPAddr).Port
-	tmp.Close()
-	la, _ := ma.NewMultiaddr(fmt.Sprintf("/ip4/127.0.0.1/tcp/%d", port))
-	cfg.ListenAddr = []ma.Multiaddr{la}
-	cfg.NodeAddr, _ = ma.NewMultiaddr(e.ipfs.Multiaddr())
-	e.proxy, err = ipfsproxy.New(cfg)
-	if err != nil {
-		fmt.Println("C12 setup proxy:", err)
-		return
-	}
-	e.proxy.SetClient(e.rec.Client)
-	// find the listen address: the config holds port 0; ask the proxy through a request later
-	e.base = fmt.Sprintf("http://127.0.0.1:%d", port)
-	// wait until it serves
-	for i := 0; i < 200; i++ {
-		res, err := e.hc.Get(e.base + "/api/v0/version")
-		if err == nil {
-			res.Body.Close()
-			break
+	// two proxies over the same daemon and the same RPC service: a plain one and one with
+	// tracing on (what cmdutils.SetupTracing switches on for a daemon started with tracing)
+	for _, tracing := range []bool{false, true} {
+		cfg := &ipfsproxy.Config{}
+		cfg.Default()
+		cfg.Tracing = tracing
+		// the proxy does not expose its listener: reserve a free port for it
+		tmp, err := net.Listen("tcp", "127.0.0.1:0")
+		if err != nil {
+			fmt.Println("C12 setup:", err)
+			return
 		}
-		time.Sleep(10 * time.Millisecond)
+		port := tmp.Addr().(*net.TCPAddr).Port
+		tmp.Close()
+		la, _ := ma.NewMultiaddr(fmt.Sprintf("/ip4/127.0.0.1/tcp/%d", port))
+		cfg.ListenAddr = []ma.Multiaddr{la}
+		cfg.NodeAddr, _ = ma.NewMultiaddr(e.ipfs.Multiaddr())
+		px, err := ipfsproxy.New(cfg)
+		if err != nil {
+			fmt.Println("C12 setup proxy:", err)
+			return
+		}
+		px.SetClient(e.rec.Client)
+		base := fmt.Sprintf("http://127.0.0.1:%d", port)
+		// wait until it serves
+		for i := 0; i < 200; i++ {
+			res, err := e.hc.Get(base + "/api/v0/version")
+			if err == nil {
+				res.Body.Close()
+				break
+			}
+			time.Sleep(10 * time.Millisecond)
+		}
+		e.proxies = append(e.proxies, px)
+		e.bases = append(e.bases, base)
 	}
+	e.proxy, e.base = e.proxies[0], e.bases[0]
 	c.Store["env"] = e
 }
 
@@ -154,7 +163,9 @@ func teardown(c *fw.Ctx) {
 	if e, ok := c.Store["env"].(*env); ok {
 		ctx, cancel := context.WithTimeout(context.Background(), 10*time.Second)
 		defer cancel()
-		e.proxy.Shutdown(ctx)
+		for _, px := range e.proxies {
+			px.Shutdown(ctx)
+		}
 		e.ipfs.Close()
 	}
 }
@@ -219,6 +230,11 @@ func run(c *fw.Ctx, idx int) {
 	}
 	r := c.Rand("main")
 	e.failRPC = ""
+	// every other group of four cases goes through the proxy that has tracing on
+	e.proxy, e.base = e.proxies[(idx/4)%2], e.bases[(idx/4)%2]
+	if (idx/4)%2 == 1 {
+		c.Cover("proxy-with-tracing")
+	}
 	switch idx % 4 {
 	case 0, 1:
 		hijacked(c, e, r)
@@ -483,24 +499,34 @@ func relayed(c *fw.Ctx, e *env, r *fw.Rand) {
 			q.Add(r.Pick("arg", "type", "recursive", "x", "only-hash", "enc"), r.Pick("", "1", "true", "/ipfs/"+gen.UCid(2).String(), "a b&c", "ü"))
 		}
 		var body []byte
+		ctype := "application/octet-stream"
 		if method != "GET" && method != "HEAD" && method != "OPTIONS" && r.Bool() {
 			body = r.Bytes(r.Intn(2000))
+			if r.Chance(1, 3) {
+				// a form body is the daemon's to read, not the proxy's
+				ctype = "application/x-www-form-urlencoded"
+				body = []byte(r.Pick("arg=%2Fipfs%2Fx&recursive=true", "a=1&b=2&b=3", "x=a+b%26c", "k="+r.Str(r.Range(1, 200))))
+			}
 		}
 		full := e.base + p
 		rawq := q.Encode()
+		if r.Chance(1, 4) {
+			// queries as clients write them by hand: separators and escapes the proxy has no business normalising
+			rawq = r.Pick("arg=/ipfs/"+gen.UCid(2).String()+"/a;b.txt&offset=3", "a=1;b=2", "x=%zz&y=1", "arg=a%2", "arg=a+b&arg=c%20d", "&&x=1&", "flag", "x=1&x=1")
+		}
 		if rawq != "" {
 			full += "?" + rawq
 		}
 		e.rec.Reset()
 		e.ipfs.ResetLog()
 		c.Journal("%s %s body=%d", method, full, len(body))
-		res := e.do(method, full, body, "application/octet-stream")
+		res := e.do(method, full, body, ctype)
 		if res.err != nil {
 			c.Inconclusive("http: " + res.err.Error())
 			continue
 		}
 		calls := e.rec.Calls()
-		c.Eval(fmt.Sprintf("relay/%s/hijackedpath=%v/q=%d/body=%v", method, strings.HasPrefix(p, "/api/v0/pin/") || contains(hij, p), len(q), body != nil))
+		c.Eval(fmt.Sprintf("relay/%s/hijackedpath=%v/q=%d/body=%v/form=%v/handq=%v", method, strings.HasPrefix(p, "/api/v0/pin/") || contains(hij, p), len(q), body != nil, ctype != "application/octet-stream", rawq != q.Encode()))
 		if len(calls) != 0 {
 			c.Violation("C12/non-hijacked-request-performed-cluster-operation", fmt.Sprintf("%s %s performed %s", method, full, names(calls)), nil)
 		}
